@@ -87,7 +87,29 @@ class Gen(object):
         raise NoReplay('no generator for type %r' % ty)
 
 
+class _CallTimeout(Exception):
+    pass
+
+
+def _alarm(signum, frame):
+    raise _CallTimeout()
+
+
+def _limits():
+    """the real function is called on generated inputs: keep one runaway call (huge ranges ...) from hanging the check
+    or eating the machine's memory"""
+    import resource
+    import signal
+    try:
+        resource.setrlimit(resource.RLIMIT_AS, (6 * 1024 ** 3, 6 * 1024 ** 3))
+    except Exception:       # noqa
+        pass
+    signal.signal(signal.SIGALRM, _alarm)
+
+
 def run_target(reg, key, n=300, seed=0, seconds=20.0, clause_idx=None, gen_override=None):
+    import signal
+    _limits()
     c = reg.contracts[key]
     rng = random.Random(seed)
     gen = Gen(rng, reg)
@@ -143,12 +165,19 @@ def run_target(reg, key, n=300, seed=0, seconds=20.0, clause_idx=None, gen_overr
         raised = None
         result = None
         try:
+            signal.alarm(2)
             result = fn(**args)
             import types as _t
-            if isinstance(result, _t.GeneratorType):
-                result = list(result)
+            from .replay import _listify
+            result = _listify(result, _t)
+        except (_CallTimeout, MemoryError):
+            signal.alarm(0)
+            out['skipped_slow'] = out.get('skipped_slow', 0) + 1
+            continue
         except Exception as e:      # noqa
             raised = e
+        finally:
+            signal.alarm(0)
         if raised is not None:
             allowed = False
             for exc, cond in c.get('raises', {}).items():
